@@ -61,6 +61,9 @@ def ops : List (String × Op) := [
   ("kcodons", do
       let h ← pHead
       pure (showR showLocs (do let k ← coding h; chunkRelativeCodonLocations k))),
+  ("kwcodons", do
+      let h ← pHead; let lo ← pInt; let hi ← pInt
+      pure (showR showLocs (do let k ← coding h; scanChunkRelativeCodonLocations k lo hi))),
   ("cdsseq", do
       let h ← pHead
       pure (showR showS (do let k ← coding h; extractSequenceChunk k))),
